@@ -1,0 +1,105 @@
+//! Verification hooks for the daser. Adds no behaviour.
+
+use std::sync::Arc;
+use std::time::Duration;
+
+use lumina_utils::executor::spawn;
+use tokio::sync::{mpsc, oneshot};
+use tokio_util::sync::CancellationToken;
+
+use super::{Daser, DaserArgs, DaserCmd, DaserError};
+use crate::p2p::verif_p2p::P2pHandle;
+use crate::store::Store;
+use crate::verif::Events;
+
+/// A running (or mocked) `Daser`.
+#[derive(Clone)]
+pub struct DaserHandle(pub(crate) Arc<Daser>);
+
+/// Starts the real daser worker.
+pub fn start_daser<S: Store + 'static>(
+    p2p: &P2pHandle,
+    store: Arc<S>,
+    events: &Events,
+    sampling_window: Duration,
+    concurrency_limit: usize,
+    additional_headersub_concurrency: usize,
+) -> Result<DaserHandle, DaserError> {
+    Daser::start(DaserArgs {
+        p2p: p2p.0.clone(),
+        store,
+        event_pub: events.publisher(),
+        sampling_window,
+        concurrency_limit,
+        additional_headersub_concurrency,
+    })
+    .map(|d| DaserHandle(Arc::new(d)))
+}
+
+#[allow(missing_docs)]
+impl DaserHandle {
+    pub fn stop(&self) {
+        self.0.stop()
+    }
+
+    pub async fn join(&self) {
+        self.0.join().await
+    }
+
+    pub async fn want_to_prune(&self, height: u64) -> Result<bool, DaserError> {
+        self.0.want_to_prune(height).await
+    }
+
+    pub async fn update_highest_prunable_block(&self, value: u64) -> Result<(), DaserError> {
+        self.0.update_highest_prunable_block(value).await
+    }
+
+    pub async fn update_number_of_prunable_blocks(&self, value: u64) -> Result<(), DaserError> {
+        self.0.update_number_of_prunable_blocks(value).await
+    }
+}
+
+/// Public mirror of the commands a `Daser` worker receives.
+#[allow(missing_docs)]
+pub enum DaserCommand {
+    UpdateHighestPrunableHeight { value: u64 },
+    UpdateNumberOfPrunableBlocks { value: u64 },
+    WantToPrune { height: u64, respond_to: oneshot::Sender<bool> },
+}
+
+/// The worker side of a mocked `Daser`.
+pub struct DaserCommands(mpsc::Receiver<DaserCmd>);
+
+impl DaserCommands {
+    /// Receive the next command sent to the daser.
+    pub async fn recv(&mut self) -> Option<DaserCommand> {
+        Some(match self.0.recv().await? {
+            DaserCmd::UpdateHighestPrunableHeight { value } => {
+                DaserCommand::UpdateHighestPrunableHeight { value }
+            }
+            DaserCmd::UpdateNumberOfPrunableBlocks { value } => {
+                DaserCommand::UpdateNumberOfPrunableBlocks { value }
+            }
+            DaserCmd::WantToPrune { height, respond_to } => {
+                DaserCommand::WantToPrune { height, respond_to }
+            }
+        })
+    }
+}
+
+/// Creates a mocked `Daser` (same construction as the test-only `Daser::mocked`).
+pub fn mocked_daser() -> (DaserHandle, DaserCommands) {
+    let (cmd_tx, cmd_rx) = mpsc::channel(16);
+    let cancellation_token = CancellationToken::new();
+
+    // Just a fake join_handle
+    let join_handle = spawn(async {});
+
+    let daser = Daser {
+        cmd_tx,
+        cancellation_token,
+        join_handle,
+    };
+
+    (DaserHandle(Arc::new(daser)), DaserCommands(cmd_rx))
+}
